@@ -62,7 +62,7 @@ def main() -> int:
             info["results"] = {}
             for pid in checks:
                 t0 = time.monotonic()
-                env = {**os.environ, "REPID_SRC": str(dst), "VERIF_EVIDENCE_DIR": str(ROOT / ".work" / "seed-evidence"),
+                env = {**os.environ, "REPID_SRC": str(dst), "VERIF_CASE_LIMIT_S": "30", "VERIF_EVIDENCE_DIR": str(ROOT / ".work" / "seed-evidence"),
                        "VERIF_REPLAY_DIR": str(ROOT / ".work" / "seed-replays")}
                 c = subprocess.run(["/venv/bin/python", "-m", "harness.run", pid, "--tier", tier], cwd=ROOT, env=env,
                                    capture_output=True, text=True)
